@@ -36,7 +36,7 @@ func c04KeyAlphabet(k model.Kind) []model.Cell {
 		return []model.Cell{model.I(0), model.I(1), model.I(-1)}
 	case model.Float:
 		// two NaN payloads: math.NaN() and the one amd64 produces for 0/0
-		return []model.Cell{model.F(0), model.F(math.Copysign(0, -1)), model.F(1), model.NaN(), model.F(math.Float64frombits(0xFFF8000000000000))}
+		return []model.Cell{model.F(0), model.F(math.Copysign(0, -1)), model.F(1), model.NaN(), model.F(math.Float64frombits(0xFFF8000000000000)), model.F(math.Inf(1)), model.F(math.Inf(-1))}
 	case model.Bool:
 		return []model.Cell{model.B(false), model.B(true)}
 	case model.String:
@@ -50,7 +50,7 @@ func c04KeyAlphabet(k model.Kind) []model.Cell {
 var c04ValCols = func() []model.Col {
 	nan := math.NaN()
 	return []model.Col{
-		{Name: "vi", Kind: model.Int, Cells: []model.Cell{model.I(3), model.I(1), model.I(-2), model.I(5), model.I(1), model.I(8)}},
+		{Name: "vi", Kind: model.Int, Cells: []model.Cell{model.I(math.MaxInt64), model.I(-1), model.I(math.MinInt64), model.I(5), model.I(1), model.I(8)}},
 		{Name: "vf", Kind: model.Float, Cells: []model.Cell{model.F(1e16), model.F(1), model.F(-1e16), model.F(0.5), model.F(3), model.F(-7)}},
 		{Name: "vn", Kind: model.Float, Cells: []model.Cell{model.F(nan), model.F(2), model.F(nan), model.F(1), model.F(4), model.F(0.25)}},
 		{Name: "vb", Kind: model.Bool, Cells: []model.Cell{model.B(true), model.B(false), model.B(true), model.B(true), model.B(false), model.B(false)}},
@@ -619,6 +619,7 @@ func init() {
 		},
 		Run: func(ctx *core.Ctx) {
 			tableLayerRun(ctx, "groupby")
+			largeTableCases(ctx, "groupby")
 			groupLayerRun(ctx, "groupby")
 			permLayerRun(ctx, "groupby")
 		},
@@ -636,6 +637,7 @@ func init() {
 		},
 		Run: func(ctx *core.Ctx) {
 			tableLayerRun(ctx, "distinct")
+			largeTableCases(ctx, "distinct")
 			groupLayerRun(ctx, "distinct")
 			permLayerRun(ctx, "distinct")
 		},
